@@ -110,7 +110,7 @@ class Quantity {
  public:
     using Rep = RepT;
     using Unit = UnitT;
-    static constexpr auto unit = Unit{};
+    static constexpr Unit unit{};
 
     static_assert(IsValidRep<Rep>::value, "Rep must meet our requirements for a rep");
 
@@ -424,6 +424,10 @@ class Quantity {
     Rep value_{};
 };
 
+// Out-of-class definition, so that `unit` can be ODR-used in C++14 (e.g., bound to a reference).
+template <typename UnitT, typename RepT>
+constexpr UnitT Quantity<UnitT, RepT>::unit;
+
 // Give more readable error messages when passing `Quantity` to a unit slot.
 template <typename U, typename R>
 struct AssociatedUnit<Quantity<U, R>> {
@@ -566,7 +570,7 @@ constexpr auto rep_cast(Zero z) {
 template <typename UnitT>
 struct QuantityMaker {
     using Unit = UnitT;
-    static constexpr auto unit = Unit{};
+    static constexpr Unit unit{};
 
     template <typename T>
     constexpr Quantity<Unit, T> operator()(T value) const {
@@ -615,6 +619,10 @@ struct QuantityMaker {
         return QuantityMaker<UnitQuotientT<Unit, OtherUnit>>{};
     }
 };
+
+// Out-of-class definition, so that `unit` can be ODR-used in C++14 (e.g., bound to a reference).
+template <typename UnitT>
+constexpr UnitT QuantityMaker<UnitT>::unit;
 
 template <typename U>
 struct AssociatedUnit<QuantityMaker<U>> : stdx::type_identity<U> {};
